@@ -47,6 +47,11 @@ def _split_top(s, sep=","):
         elif ch == '"':
             in_str = True
             cur += ch
+        elif ch == "'" and s.startswith("const ", max(0, i - 6), i) and i + 2 < len(s) and (s[i + 2] == "'" or (s[i + 1] == "\\" and "'" in s[i + 2:i + 12])):
+            # a char constant (const ',' / const '(' / const '\n'): copy it whole; lifetimes ('_ , 'a) never follow "const "
+            j = s.index("'", i + 2) if s[i + 1] != "\\" else s.index("'", i + 3)
+            cur += s[i:j + 1]
+            i = j
         elif ch in "([{<":
             # '<' only counts as a bracket in type/path position; "->" and comparison never occur inside operand lists
             depth += 1
